@@ -323,6 +323,7 @@ class Slicer:
         self.body = body
         self.x = X(body)
         self._var_defs = None
+        self._flow = None
 
     def var_defs(self):
         """name -> list of (projtext, expr) assigned (whole: projtext '' / partial) to the named local, incl. calls
@@ -345,33 +346,57 @@ class Slicer:
                 for s in blk.stmts:
                     if s.k == "assign":
                         if not s.lhs[1] and s.lhs[0] in b.names:
-                            out.setdefault(b.names[s.lhs[0]], []).append(("", self.x.rvalue(s.rv, self.x.depth)))
+                            out.setdefault(b.names[s.lhs[0]], []).append(("", self.x.rvalue(s.rv, self.x.depth), blk.i))
                         elif s.lhs[1]:
                             e = self.x.place(s.lhs)
                             if e[0] == "var":
-                                out.setdefault(e[1], []).append((e[2], self.x.rvalue(s.rv, self.x.depth)))
+                                out.setdefault(e[1], []).append((e[2], self.x.rvalue(s.rv, self.x.depth), blk.i))
                 t = blk.term
                 if t.k == "call":
                     ce = self.x.call_expr(blk.i, t, self.x.depth)
                     if t.dest is not None:
                         if not t.dest[1] and t.dest[0] in b.names:
-                            out.setdefault(b.names[t.dest[0]], []).append(("", ce))
+                            out.setdefault(b.names[t.dest[0]], []).append(("", ce, blk.i))
                         elif t.dest[1]:
                             de = self.x.place(t.dest)
                             if de[0] == "var":
-                                out.setdefault(de[1], []).append((de[2], ce))
+                                out.setdefault(de[1], []).append((de[2], ce, blk.i))
                     for a in t.args:
                         if a.place is not None and not a.place[1] and a.place[0] in mutref_tmp:
                             nm, pj = mutref_tmp[a.place[0]]
-                            out.setdefault(nm, []).append((pj, ce))
+                            out.setdefault(nm, []).append((pj, ce, blk.i))
             self._var_defs = out
         return self._var_defs
 
-    def defs_of(self, name, proj):
+    def defs_of(self, name, proj, with_bb=False):
         out = []
-        for dproj, e in self.var_defs().get(name, []):
+        for dproj, e, bb in self.var_defs().get(name, []):
             if dproj == "" or proj == "" or proj.startswith(dproj) or dproj.startswith(proj):
-                out.append(e)
+                out.append((e, bb) if with_bb else e)
+        return out
+
+    def control_exprs(self, def_bbs):
+        """discriminant expressions of the switches that choose between several definitions of one value:
+        switch edges dominating one definition block but not all of them"""
+        if len(set(def_bbs)) < 2:
+            return []
+        if self._flow is None:
+            self._flow = Flow(self.body)
+        fl = self._flow
+        chains = []
+        for bb in set(def_bbs):
+            chains.append([n for n in fl.dom_edges(bb)])
+        common = set(chains[0])
+        for c in chains[1:]:
+            common &= set(c)
+        out = []
+        seen = set()
+        for c in chains:
+            for n in c:
+                if n in common or n[1] in seen:
+                    continue
+                seen.add(n[1])
+                out.append(self.x.operand(self.body.blocks[n[1]].term.discr))
         return out
 
     def sources(self, e):
@@ -390,7 +415,9 @@ class Slicer:
                     key = (s[1], s[2])
                     if key not in seen_vars:
                         seen_vars.add(key)
-                        work.extend(self.defs_of(s[1], s[2]))
+                        ds = self.defs_of(s[1], s[2], with_bb=True)
+                        work.extend(e for e, _ in ds)
+                        work.extend(self.control_exprs([bb for _, bb in ds]))
                 elif k == "const":
                     out.add("const:" + str(s[2]))
                 elif k == "proj":
@@ -403,9 +430,12 @@ class Slicer:
                     key = ("tmp", s[1])
                     if key not in seen_vars:
                         seen_vars.add(key)
+                        dbbs = []
                         for (bb, idx, kind) in b.defs().get(s[1], []):
                             if kind in ("whole", "call", "partial"):
                                 work.append(self.x.def_expr((bb, idx), self.x.depth))
+                                dbbs.append(bb)
+                        work.extend(self.control_exprs(dbbs))
                 elif k == "closure":
                     out.add("closure:" + s[1])
                 elif k == "aggr":
